@@ -22,8 +22,13 @@ pub mod c17;
 pub mod c18;
 pub mod c19;
 pub mod c20;
+pub mod witness;
 
 pub fn run(ctx: &Ctx, sh: &mut Shard) {
+    // fixed witnesses of open known findings (see witness.rs): once per run, on shard 0
+    if ctx.shard == 0 && ctx.only.is_none() {
+        witness::run(&ctx.prop, sh);
+    }
     match ctx.prop.as_str() {
         "C01" => c01::run(ctx, sh),
         "C02" => c02::run(ctx, sh),
